@@ -163,7 +163,7 @@ CHECKS = {
         text='Partial claim (the miasmX-parser clause). On every path of the symbolic decoder exploration both renderings of the decoded instruction are produced by the real printer with every immediate / displacement symbolic, '
              'each is fed to the matching real parser (asm / asm_att) and the original bytes must be among the candidates for ALL byte values of the path - so operand order, size suffixes, sigils, memory layout and the fsub/fdiv reversal are exercised. '
              'A miss is reported only for canonical encodings: the objdump text of the original bytes at the witness, assembled by GNU as, yields exactly those bytes (a criterion that does not look at the rendering under test). Arbiter level (labelled): at one witness per operand shape, for instructions a compiler emits, GNU as must accept the rendering in the matching syntax mode and objdump must read its encoding as the same instruction as the original bytes.',
-        note='Trusted: z3, proxies, render mode (core.render_number; digit-string <-> integer conversion not modelled), GNU as 2.40 as canonicity filter. Bounds: thin ModRM slice, prefix sets (), (66) [+ (67) thorough]; quick: a core list + 30 sampled rows in the thin slice, every other row under () and (66) in the thinnest slice.',
+        note='Trusted: z3, proxies, render mode (core.render_number; digit-string <-> integer conversion not modelled), GNU as 2.40 as canonicity filter. Bounds: thin ModRM slice, prefix sets (), (66) [+ (67) thorough]; quick: a core list + 12 sampled rows in the thin slice, every other row under () and (66; x87 escape rows excepted) in the thinnest slice.',
         design='5/C09 + 9', engine='E2'),
     'C10': dict(
         level='model_checking',
